@@ -40,6 +40,9 @@ pub struct Cfg {
     /// the UI does not poll for decodes unless the trace says so
     #[serde(default, skip_serializing_if = "is_false")]
     pub bs_is_ctrl: bool,
+    /// terminal sessions: the buffer starts with all its rows allocated (`Buffer::create`) instead of lazily
+    #[serde(default, skip_serializing_if = "is_false")]
+    pub prefilled: bool,
     /// terminal sessions: the buffer is a viewer's (not a terminal buffer: no scrollback viewport)
     #[serde(default, skip_serializing_if = "is_false")]
     pub viewer: bool,
